@@ -26,6 +26,10 @@ type jsonDoc struct {
 
 type rawJSON struct{ text string }
 
+// wsVariant: the same JSON text with insignificant whitespace added (different bytes, same
+// compact form, same decoded value).
+type wsVariant struct{ of SliceVal }
+
 func (in *Interp) jsonValLen(v SliceVal) int {
 	switch x := v.Ext.(type) {
 	case *rawJSON:
@@ -103,8 +107,19 @@ func registerJSONDoc(ex *Explorer) {
 	I[vrtPath+".RawJSON"] = func(in *Interp, fn *ssa.Function, a []Value) Value {
 		return SliceVal{Ext: &rawJSON{text: str(a[0])}}
 	}
+	// vrt.Reformat(content []byte) []byte
+	I[vrtPath+".Reformat"] = func(in *Interp, fn *ssa.Function, a []Value) Value {
+		sv := a[0].(SliceVal)
+		if sv.Ext == nil {
+			in.fail("unsupported", "Reformat of concrete bytes")
+		}
+		return SliceVal{Ext: &wsVariant{of: sv}}
+	}
 	I[fpkg+"/jsonlen.Compact"] = func(in *Interp, fn *ssa.Function, a []Value) Value {
 		sv := a[0].(SliceVal)
+		if w, ok := sv.Ext.(*wsVariant); ok {
+			return w.of
+		}
 		if sv.Ext == nil && sv.Arr != nil {
 			in.fail("unsupported", "jsonlen.Compact of concrete bytes (only modelled documents are supported)")
 		}
